@@ -171,6 +171,8 @@ def run(ck):
     from ..rules import loops
     ck.run_rule("G13", "every while loop has a variant (template with side conditions read from the loop)", 15, loops.rule_G13)
     ck.run_rule("G14", "recursion through '.include' is bounded by a depth guard", 1, loops.rule_G14)
+    from ..rules import route
+    ck.run_rule("DIR.route", "a statement that is neither an instruction, a directive nor a constant is an error, never dropped silently", 5, route.rule_route, ("fallback",))
     from . import c16
     ck.run_rule("C16.R3", "'.once' cuts inclusion cycles: the counter is advanced before the body is compiled", 3, c16.rule_R3)
     from ..rules import deliver
